@@ -514,7 +514,12 @@ void sx127x_lora_handle_interrupt(sx127x *device) {
     return;
   }
   if ((value & SX127x_IRQ_FLAG_RXDONE) != 0) {
-    ERROR_CHECK_NOCODE(sx127x_lora_rx_read_payload(device));
+    uint16_t configured_length = device->expected_packet_length;
+    if (sx127x_lora_rx_read_payload(device) != SX127X_OK) {
+      // the packet could not be read. do not carry its length over to the next one
+      device->expected_packet_length = configured_length;
+      return;
+    }
     if (device->rx_callback != NULL) {
       device->rx_callback(device, device->packet, device->expected_packet_length);
     }
